@@ -38,8 +38,8 @@ m('19-log_worker-exits-on-shutdown', 'src/db.rs', "\t\twhile !db.shutdown.load(O
 m('20-two-guards-in-end_record', 'src/log.rs', "\t\tlet mut total_value = 0;\n\t\tfor (id, overlay) in values.into_iter() {", "\t\tdrop(overlays);\n\t\tlet mut overlays = self.overlays.write();\n\t\tlet mut total_value = 0;\n\t\tfor (id, overlay) in values.into_iter() {", {'C05': ['1e one-guard-over-log-publication']})
 m('22-value-before-key-compare', 'src/table.rs', "\t\t\t\t\t\tif !k.compare(&to_fetch) {", "\t\t\t\t\t\tif !k.compare(&to_fetch) && self.db_version == 0 {", {'C05': ['5b value-only-after-key-match']})
 # ---- C08
-m('26-new-error-after-publish', 'src/db.rs', "\t\tfor (c, iterset) in &commit.btree_indexed {\n\t\t\titerset.copy_to_overlay(\n\t\t\t\t&mut overlay[*c as usize].btree_indexed,\n\t\t\t\trecord_id,\n\t\t\t\t&mut bytes,\n\t\t\t\t&self.options,\n\t\t\t);\n\t\t}\n\n\t\tlet commit = Commit { id: record_id, changeset: commit, bytes };\n\n\t\tlog::debug!(\n\t\t\ttarget: "parity-db",\n\t\t\t"Queued commit {}, {} bytes",",
-  "\t\tfor (c, iterset) in &commit.btree_indexed {\n\t\t\titerset.copy_to_overlay(\n\t\t\t\t&mut overlay[*c as usize].btree_indexed,\n\t\t\t\trecord_id,\n\t\t\t\t&mut bytes,\n\t\t\t\t&self.options,\n\t\t\t);\n\t\t}\n\t\tif bytes > MAX_COMMIT_QUEUE_BYTES * 64 {\n\t\t\treturn Err(Error::InvalidInput("Commit too large".into()))\n\t\t}\n\n\t\tlet commit = Commit { id: record_id, changeset: commit, bytes };\n\n\t\tlog::debug!(\n\t\t\ttarget: "parity-db",\n\t\t\t"Queued commit {}, {} bytes",",
+m('26-new-error-after-publish', 'src/db.rs', '\t\t\t\t&mut overlay[*c as usize].btree_indexed,\n\t\t\t\trecord_id,\n\t\t\t\t&mut bytes,\n\t\t\t\t&self.options,\n\t\t\t);\n\t\t}\n\n\t\tlet commit = Commit { id: record_id, changeset: commit, bytes };\n\n\t\tlog::debug!(\n\t\t\ttarget: "parity-db",\n\t\t\t"Queued commit {}, {} bytes",',
+  '\t\t\t\t&mut overlay[*c as usize].btree_indexed,\n\t\t\t\trecord_id,\n\t\t\t\t&mut bytes,\n\t\t\t\t&self.options,\n\t\t\t);\n\t\t}\n\t\tif bytes > MAX_COMMIT_QUEUE_BYTES * 64 {\n\t\t\treturn Err(Error::InvalidInput("Commit too large".into()))\n\t\t}\n\n\t\tlet commit = Commit { id: record_id, changeset: commit, bytes };\n\n\t\tlog::debug!(\n\t\t\ttarget: "parity-db",\n\t\t\t"Queued commit {}, {} bytes",',
   {'C08': ['copy_to_overlay -> Err(InvalidInput)']})
 # ---- C12
 m('32-no-log-sync', 'src/log.rs', "\t\t\t\t\ttry_io!(file.sync_data());\n", "", {'C12': ['1c sync-before-handover']})
@@ -90,15 +90,15 @@ m('50-write-metadata-without-create', 'src/options.rs', "\t\t} else if create {\
 m('51-key-renamed-on-writer-side', 'src/options.rs', "\"preimage: {}, uniform: {}, refc: {}, compression", "\"preimage: {}, uniform: {}, ref_counted: {}, compression", {'C17': ['3c writer-reader-agree']})
 m('51b-keys-swapped-in-reader', 'src/options.rs', "\t\tlet multitree = vals.get(\"multitree\").and_then(|c| c.parse().ok()).unwrap_or(false);\n\t\tlet append_only = vals.get(\"append_only\").and_then(|c| c.parse().ok()).unwrap_or(false);",
   "\t\tlet multitree = vals.get(\"append_only\").and_then(|c| c.parse().ok()).unwrap_or(false);\n\t\tlet append_only = vals.get(\"multitree\").and_then(|c| c.parse().ok()).unwrap_or(false);", {'C17': ['3c writer-reader-agree']})
-m('53-predicate-without-separator', 'src/index.rs', "\t\tname.starts_with(&format!(\"index_{col:02}_\"))", "\t\tname.starts_with(&format!(\"index_{col:02}\"))", {'C17': ['4e predicate-is-prefix-of-name-format index::TableId']})
+m('53-predicate-without-separator', 'src/index.rs', "\t\tname.starts_with(&format!(\"index_{col:02}_\"))", "\t\tname.starts_with(&format!(\"index_{col:02}\"))", {'C17': ['4e column-number-delimited']})
 m('53b-drop_files-other-column', 'src/column.rs', "\t\t\t\tif crate::index::TableId::is_file_name(column, file) ||", "\t\t\t\tif crate::index::TableId::is_file_name(column / 10, file) ||", {'C17': []})
 m('49b-reset-without-precheck', 'src/db.rs', "\t\tlet salt = Self::precheck_column_operation(options)?;\n\t\tSelf::remove_column_files(options, index)?;\n", "\t\tSelf::remove_column_files(options, index)?;\n\t\tlet salt = Self::precheck_column_operation(options)?;\n", {'C17': ['4i open-before-change db::Db::reset_column']})
 
 # ---- C11
 m('30-no-is_locked-deferral', 'src/db.rs', "\t\t\t\t\t\t\t\t\tif let Some(reader) = reader {\n\t\t\t\t\t\t\t\t\t\tif reader.is_locked() {\n\t\t\t\t\t\t\t\t\t\t\ttree_active = true;\n\t\t\t\t\t\t\t\t\t\t}\n\t\t\t\t\t\t\t\t\t}\n\t\t\t\t\t\t\t\t}\n\t\t\t\t\t\t\t\tif tree_active {\n\t\t\t\t\t\t\t\t\tdefer = true;",
   "\t\t\t\t\t\t\t\t\tif let Some(_reader) = reader {\n\t\t\t\t\t\t\t\t\t\ttree_active = false;\n\t\t\t\t\t\t\t\t\t}\n\t\t\t\t\t\t\t\t}\n\t\t\t\t\t\t\t\tif tree_active {\n\t\t\t\t\t\t\t\t\tdefer = true;", {'C11': ['1b deferred-when-reader-locked']})
-m('31-clean-before-recopy-in-defer', 'src/db.rs', "\t\t\tlet mut bytes = 0;\n\n\t\t\tfor (c, indexed) in &commit.indexed {\n\t\t\t\tindexed.copy_to_overlay(\n\t\t\t\t\t&mut overlay[*c as usize],\n\t\t\t\t\trecord_id,\n\t\t\t\t\t&mut bytes,\n\t\t\t\t\t&self.options,\n\t\t\t\t)?;\n\t\t\t}\n\n\t\t\tfor (c, iterset) in &commit.btree_indexed {\n\t\t\t\titerset.copy_to_overlay(\n\t\t\t\t\t&mut overlay[*c as usize].btree_indexed,\n\t\t\t\t\trecord_id,\n\t\t\t\t\t&mut bytes,\n\t\t\t\t\t&self.options,\n\t\t\t\t)?;\n\t\t\t}\n\n\t\t\t{\n\t\t\t\t// Cleanup the commit overlay with old id.\n\t\t\t\tfor (c, key_values) in commit.indexed.iter() {\n\t\t\t\t\tkey_values.clean_overlay(&mut overlay[*c as usize], old_id);\n\t\t\t\t}",
-  "\t\t\tlet mut bytes = 0;\n\n\t\t\tfor (c, key_values) in commit.indexed.iter() {\n\t\t\t\tkey_values.clean_overlay(&mut overlay[*c as usize], old_id);\n\t\t\t}\n\t\t\tfor (c, indexed) in &commit.indexed {\n\t\t\t\tindexed.copy_to_overlay(\n\t\t\t\t\t&mut overlay[*c as usize],\n\t\t\t\t\trecord_id,\n\t\t\t\t\t&mut bytes,\n\t\t\t\t\t&self.options,\n\t\t\t\t)?;\n\t\t\t}\n\n\t\t\tfor (c, iterset) in &commit.btree_indexed {\n\t\t\t\titerset.copy_to_overlay(\n\t\t\t\t\t&mut overlay[*c as usize].btree_indexed,\n\t\t\t\t\trecord_id,\n\t\t\t\t\t&mut bytes,\n\t\t\t\t\t&self.options,\n\t\t\t\t)?;\n\t\t\t}\n\n\t\t\t{",
+m('31-clean-before-recopy-in-defer', 'src/db.rs', "\t\t\tlet mut bytes = 0;\n\n\t\t\tfor (c, indexed) in &commit.indexed {\n\t\t\t\tindexed.copy_to_overlay(\n\t\t\t\t\t&mut overlay[*c as usize],\n\t\t\t\t\trecord_id,\n\t\t\t\t\t&mut bytes,\n\t\t\t\t\t&self.options,\n\t\t\t\t);\n\t\t\t}\n\n\t\t\tfor (c, iterset) in &commit.btree_indexed {\n\t\t\t\titerset.copy_to_overlay(\n\t\t\t\t\t&mut overlay[*c as usize].btree_indexed,\n\t\t\t\t\trecord_id,\n\t\t\t\t\t&mut bytes,\n\t\t\t\t\t&self.options,\n\t\t\t\t);\n\t\t\t}\n\n\t\t\t{\n\t\t\t\t// Cleanup the commit overlay with old id.\n\t\t\t\tfor (c, key_values) in commit.indexed.iter() {\n\t\t\t\t\tkey_values.clean_overlay(&mut overlay[*c as usize], old_id);\n\t\t\t\t}",
+  "\t\t\tlet mut bytes = 0;\n\n\t\t\tfor (c, key_values) in commit.indexed.iter() {\n\t\t\t\tkey_values.clean_overlay(&mut overlay[*c as usize], old_id);\n\t\t\t}\n\t\t\tfor (c, indexed) in &commit.indexed {\n\t\t\t\tindexed.copy_to_overlay(\n\t\t\t\t\t&mut overlay[*c as usize],\n\t\t\t\t\trecord_id,\n\t\t\t\t\t&mut bytes,\n\t\t\t\t\t&self.options,\n\t\t\t\t);\n\t\t\t}\n\n\t\t\tfor (c, iterset) in &commit.btree_indexed {\n\t\t\t\titerset.copy_to_overlay(\n\t\t\t\t\t&mut overlay[*c as usize].btree_indexed,\n\t\t\t\t\trecord_id,\n\t\t\t\t\t&mut bytes,\n\t\t\t\t\t&self.options,\n\t\t\t\t);\n\t\t\t}\n\n\t\t\t{",
   {'C11': ['retag-before-untag'], 'C01': ['retag-before-untag']})
 # ---- C09 / C10 / C07 / C20
 m('27-search-only-current-index', 'src/column.rs', "\t\tfor entry in &reindex.queue {\n\t\t\tif let ReindexEntry::Index(index) = entry {\n\t\t\t\tif let Some(r) = Self::search_index(key, index, tables, log)? {\n\t\t\t\t\treturn Ok(Some(r))\n\t\t\t\t}\n\t\t\t}\n\t\t}\n\t\tOk(None)", "\t\tlet _ = reindex;\n\t\tOk(None)", {'C09': ['1wa anchors']})
@@ -122,3 +122,7 @@ m('41-no-index-remove-on-delete', 'src/column.rs', "\t\t\t\tindex.write_remove_p
 # ---- C15 lock order
 m('45-overlay-before-queue-lock', 'src/db.rs', "\tfn commit_raw(&self, commit: CommitChangeSet) -> Result<()> {\n\t\tlet mut queue = self.commit_queue.lock();\n", "\tfn commit_raw(&self, commit: CommitChangeSet) -> Result<()> {\n\t\tlet mut overlay = self.commit_overlay.write();\n\t\tlet mut queue = self.commit_queue.lock();\n",
   {'C15': ['5b cycle']}, more=[("\t\tlet mut overlay = self.commit_overlay.write();\n\n\t\tqueue.record_id += 1;", "\t\tqueue.record_id += 1;")])
+
+# ---- C05 / C01: file reads shadowed by the log overlay
+m('r1-file-read-ignores-overlay', 'src/table.rs', "\tpub fn read_next_part(&self, index: u64, log: &LogWriter) -> Result<Option<u64>> {\n\t\tlet mut buf = PartialEntry::new_uninit();\n\t\tif !log.value(self.id, index, buf.as_mut()) {\n\t\t\tself.file.read_at(buf.as_mut(), index * self.entry_size as u64)?;\n\t\t}",
+  "\tpub fn read_next_part(&self, index: u64, log: &LogWriter) -> Result<Option<u64>> {\n\t\tlet mut buf = PartialEntry::new_uninit();\n\t\tlet _ = log;\n\t\tself.file.read_at(buf.as_mut(), index * self.entry_size as u64)?;", {'C05': ['6b overlay-first table::ValueTable::read_next_part'], 'C01': ['4sb overlay-first table::ValueTable::read_next_part']})
